@@ -41,6 +41,8 @@ SNIPPETS = [
     "import helper\n\nhv = helper.util\n",
     "from generated.schema import *\n\ngt = table\n",
     "from generated import schema\n\ngs = schema.COLS\n",
+    # found only once scripts/tool.txt has become scripts/tool.py (the folder's first module)
+    "import tool\n\ntq = tool.util\n",
     # a module that is half-typed (unparsable) at first in some runs, and its importers
     "hx = 1\n\n\ndef hfun():\n    return hx\n",
     "from half import hx, hfun\n\nhy = hx\nhz = hfun()\n",
@@ -113,7 +115,8 @@ class Sim:
         self.root = os.path.join(self.dir, "proj")
         self.ext = os.path.join(self.dir, "extlibs")
         kernel.write_tree(self.root, init)
-        if self.has_ext:
+        self.ext_late = bool(swarm.get("ext_late"))
+        if self.has_ext and not self.ext_late:
             os.makedirs(self.ext)
             with open(os.path.join(self.ext, "extlib.py"), "w", encoding="utf-8", newline="") as fh:
                 fh.write(EXT_TEXTS[0])
@@ -130,8 +133,9 @@ class Sim:
             self.prefs["ignore_syntax_errors"] = True
         if self.has_ext:
             self.prefs["python_path"] = [self.ext]
-            os.utime(os.path.join(self.ext, "extlib.py"), ns=(self.clock.ns, self.clock.ns))
-            os.utime(self.ext, ns=(self.clock.ns, self.clock.ns))
+            if not self.ext_late:
+                os.utime(os.path.join(self.ext, "extlib.py"), ns=(self.clock.ns, self.clock.ns))
+                os.utime(self.ext, ns=(self.clock.ns, self.clock.ns))
         self.W = Project(self.root, fscommands=self.fs, ropefolder=None, **self.prefs)
         self.sq = _patch_autoimport()
         self.use_autoimport = swarm.get("autoimport", True)
@@ -446,6 +450,8 @@ class Sim:
                 self.names_seen.add(mod.split(".")[-1])
             elif "." not in p.split("/")[-1]:
                 self.names_seen.add(p.replace("/", "."))
+            elif p.endswith(".txt"):
+                self.names_seen.add(p.split("/")[-1][:-4])  # (may become a module by renaming)
 
     def exec(self, st, i):
         """Execute one concrete step.  Total: a step whose precondition does
@@ -666,6 +672,13 @@ class Sim:
                     return "skip"
                 full = os.path.join(self.ext, "extlib.py")
                 data = st["text"].encode("utf-8")
+                if not os.path.exists(full):
+                    # the library is installed only now (the python_path entry named a folder that did not exist)
+                    os.makedirs(self.ext, exist_ok=True)
+                    with open(full, "wb") as fh:
+                        fh.write(b"")
+                    os.utime(full, ns=(self.clock.ns - 7_000_000_000, self.clock.ns - 7_000_000_000))
+                    out.stats["probe_external_library_installed_late"] += 1
                 old = open(full, "rb").read()
                 ns_probe = self._probe_ns(st.get("fault"))
                 prev = (os.stat(full).st_mtime_ns, len(old))
@@ -823,7 +836,7 @@ class CoherenceEngine(Engine):
     name = "coherence"
     level = "exploration"
     tiers = {
-        "quick": {"runs": 2500, "wall": 170},
+        "quick": {"runs": 4000, "wall": 170},
         "thorough": {"runs": 150000, "wall": 1800},
     }
     components_real = [
@@ -872,6 +885,7 @@ class CoherenceEngine(Engine):
             "burst": rng.random() < 0.4,
             "soa": rng.random() < 0.3,
             "ext": rng.random() < 0.3,
+            "ext_late": rng.random() < 0.35,
             "ignore_syntax_errors": rng.random() < 0.2,
         }
 
@@ -902,6 +916,8 @@ class CoherenceEngine(Engine):
             n = rng.randint(1, 3)
             return "".join(rng.choice(pool) for _ in range(n))
 
+        if actor == "client" and "scripts/tool.txt" in t and rng.random() < 0.1:
+            return {"a": "c_rename_file", "p": "scripts/tool.txt", "q": "scripts/tool.py", "dt": dt}
         if actor == "client":
             k = rng.choice(["write"] * 4 + ["create_module"] * 2 + ["create_package", "move", "move", "remove", "remove", "refactor", "refactor", "refactor", "move_module", "to_package", "undo", "undo", "redo"])
             if k == "write" and pyfiles:
@@ -1034,6 +1050,11 @@ class CoherenceEngine(Engine):
             init.append({"p": "generated", "dir": True})
             init.append({"p": "generated/__init__.py", "text": "", "nl": "lf", "enc": "utf-8"})
             init.append({"p": "generated/schema.py", "text": "def table():\n    return 1\n\n\nCOLS = 3\n", "nl": "lf", "enc": "utf-8"})
+        if rng.random() < 0.3:
+            # a folder without any module yet; its text file may be renamed to a module through rope
+            init.append({"p": "scripts", "dir": True})
+            init.append({"p": "scripts/tool.txt", "text": "def util():\n    return 1\n", "nl": "lf", "enc": "utf-8"})
+            init.append({"p": "uses_tool.py", "text": "import tool\n\ntq = tool.util\n", "nl": "lf", "enc": "utf-8"})
         if rng.random() < 0.6:
             init.append({"p": "helper.txt", "text": "def util():\n    return 1\n\n\nclass Thing:\n    size = 3\n", "nl": "lf", "enc": "utf-8"})
         return self._go({"init": init, "swarm": swarm, "steps": None}, rng)
